@@ -225,6 +225,24 @@ func CompareDataset(path string, o *Obj, d *obs.Dataset, opt Opts) []Problem {
 	if s.Chunk != nil && (len(d.ChunkDims) < len(s.Chunk) || !eqU64(d.ChunkDims[:len(s.Chunk)], s.Chunk)) {
 		ps = append(ps, Problem{"dataset-chunk", path, fmt.Sprintf("chunk shape %v, created with %v", d.ChunkDims, s.Chunk)})
 	}
+	if k, _ := s.Base(); k == "vl" {
+		if !opt.SkipData && o.Written {
+			if d.ReadErr == "" {
+				ps = append(ps, Problem{"read-unsupported-returned-values", path, fmt.Sprintf("Read() returned %d values for variable-length data", len(d.Read))})
+			}
+			if d.StringsErr == "" {
+				ok := s.Type == "vl:str" && len(d.Strings) == len(o.VL)
+				for i := 0; ok && i < len(o.VL); i++ {
+					ok = d.Strings[i] == string(o.VL[i])
+				}
+				if !ok {
+					ps = append(ps, Problem{"strings-values", path, "ReadStrings() returned values that are not the written variable-length strings"})
+				}
+			}
+		}
+		ps = append(ps, compareAttrs(path, o.Attrs, d.Attrs, d.AttrsErr)...)
+		return ps
+	}
 	if !opt.SkipData && o.Written && eqU64(d.Dims, o.Dims) {
 		// Read
 		if want, ok := s.ExpectedRead(o.Raw); ok {
@@ -261,7 +279,20 @@ func CompareDataset(path string, o *Obj, d *obs.Dataset, opt Opts) []Problem {
 		} else if d.StringsErr == "" {
 			ps = append(ps, Problem{"strings-unsupported-returned-values", path, fmt.Sprintf("ReadStrings() returned %d values for a %s dataset", len(d.Strings), s.Type)})
 		}
-		if d.CompoundErr == "" {
+		if want, ok := s.ExpectedCompound(o.Raw, obs.Render); ok {
+			if d.CompoundErr != "" {
+				ps = append(ps, Problem{"compound-error", path, "ReadCompound() failed on a fully written compound dataset: " + d.CompoundErr})
+			} else if len(d.Compound) != len(want) {
+				ps = append(ps, Problem{"compound-values", path, fmt.Sprintf("ReadCompound() returned %d elements, written %d", len(d.Compound), len(want))})
+			} else {
+				for i := range want {
+					if d.Compound[i] != want[i] {
+						ps = append(ps, Problem{"compound-values", path, fmt.Sprintf("ReadCompound()[%d] = %s, written %s", i, clip(d.Compound[i]), clip(want[i]))})
+						break
+					}
+				}
+			}
+		} else if d.CompoundErr == "" {
 			ps = append(ps, Problem{"compound-unsupported-returned-values", path, fmt.Sprintf("ReadCompound() returned %d values for a %s dataset", len(d.Compound), s.Type)})
 		}
 	}
